@@ -6,7 +6,7 @@
      restart                         vorbis_synthesis_restart
      real <ch> <rate> <q> <sig> <seed> <n>     encode a stream, keep its packets, decode it cleanly
      fault <kind> <j> [<arg> [<vis>]]  (vis>0: only every vis-th packet keeps its granule position, as after Ogg paging) decode again with packet j dropped / duplicated / truncated to <arg> bytes / bit <arg> flipped /
-                                     or decoding restarted at j; report which packets' output differs from the clean decode
+                                     or decoding restarted at j (7: restarted, and vorbis_synthesis_lapout called after packet j+1); report which packets' output differs from the clean decode
 */
 #include "mkstream.h"
 
@@ -32,7 +32,7 @@ static void c11_decode(int kind,long j,long arg,long vis,uint64_t *hash,long *cn
       if(kind==2) reps=2;                                        /* duplicate */
       if(kind==3){ if(arg<op.bytes)op.bytes=arg; }              /* truncate */
       if(kind==4&&op.bytes>0){ tmp=malloc(op.bytes); memcpy(tmp,op.packet,op.bytes); tmp[(arg/8)%op.bytes]^=(1<<(arg%8)); op.packet=tmp; } /* bit flip */
-      if(kind==5){ vorbis_synthesis_restart(&vd); }             /* restart here */
+      if(kind==5||kind==7){ vorbis_synthesis_restart(&vd); }    /* restart here (7: and ask for the lapping view after the next packet, see below) */
       if(kind==6){ vorbis_block_clear(&vb); vorbis_block_init(&vd,&vb); vorbis_synthesis_restart(&vd); } /* fresh block + restart */
     }
     for(r=0;r<reps;r++){
@@ -40,6 +40,9 @@ static void c11_decode(int kind,long j,long arg,long vis,uint64_t *hash,long *cn
       rcs[k]=rc;
       if(rc==0){
         vorbis_synthesis_blockin(&vd,&vb);
+        /* what a cross-lapping application (or a lapped seek) does after priming two packets: vorbis_synthesis_lapout rearranges the
+           buffer into one contiguous view; it consumes nothing, so everything returned afterwards must be what it would have been */
+        if(kind==7&&k==j+1){ float **lp; vorbis_synthesis_lapout(&vd,&lp); }
         while((n=vorbis_synthesis_pcmout(&vd,&pcm))>0){ int c; for(c=0;c<c11_ch;c++)hash[k]=c11_fnv(hash[k],pcm[c],n*4); cnt[k]+=n; vorbis_synthesis_read(&vd,n); }
       }
     }
